@@ -9,7 +9,7 @@ Custom flow built from vlib pieces (standard_check has no sanitizer stage):
   3. thorough tier: the same streams with the ASan+UBSan flavour of gatery; a sanitizer abort (or any crash) on a generated case
      is a concrete violation with that case as replay. This part is exploration of memory safety, not proof.
 """
-import os, re, sys
+import os, re, subprocess, sys, tempfile
 sys.path.insert(0, os.path.join(os.path.dirname(os.path.abspath(__file__)), "..", "tools"))
 import vlib
 
@@ -29,6 +29,57 @@ TRUSTED = ["Lean 4.33 kernel", "axioms: propext, Classical.choice, Quot.sound on
            "pass boundaries: hook hlim::verif_passBoundary (guard GATERY_VERIF) for the real Default/MinimalPostprocessing; the repeated/shuffled variants "
            "replay the DefaultPostprocessing pass sequence through public Circuit methods (copy of Circuit.cpp generalOptimization/run)",
            "ASan/UBSan (gcc 12) for the memory-safety exploration"]
+
+
+TIMEOUT = {"quick": 300, "thorough": 1500}   # seconds per stream; a hang of the real code is a failure to terminate on a generated case
+
+
+class TStream:
+    """harness | tee keep | driver, with a timeout (vlib.Stream has none); same fields as vlib.Stream"""
+
+    def __init__(self, chk, harness, driver, args, tag, timeout):
+        self.args = [str(x) for x in args]
+        self.harness = harness
+        self.keep = os.path.join(vlib.BUILD, "streams", "%s-%s.txt" % (chk.prop, tag))
+        os.makedirs(os.path.dirname(self.keep), exist_ok=True)
+        self.timed_out = False
+        with tempfile.TemporaryFile() as errf:
+            h = subprocess.Popen([harness] + self.args, stdout=subprocess.PIPE, stderr=errf)
+            tee = subprocess.Popen(["tee", self.keep], stdin=h.stdout, stdout=subprocess.PIPE)
+            h.stdout.close()
+            d = subprocess.Popen([driver], stdin=tee.stdout, stdout=subprocess.PIPE, stderr=subprocess.STDOUT, text=True)
+            tee.stdout.close()
+            try:
+                out, _ = d.communicate(timeout=timeout)
+            except subprocess.TimeoutExpired:
+                self.timed_out = True
+                h.kill()
+                out, _ = d.communicate()
+            h.wait()
+            tee.wait()
+            errf.seek(0)
+            self.herr = errf.read().decode(errors="replace")[-4000:]
+        self.lines = out.splitlines()
+        self.hrc, self.drc = ("timeout" if self.timed_out else h.returncode), d.returncode
+        self.diffs, self.fails, self.summary = vlib.parse_driver(self.lines)
+        self.crashed = (self.hrc != 0) or (self.drc != 0) or not self.summary or "_bad_summary" in self.summary
+
+
+def ops_prefix(case_lines, step):
+    """operation lines (with the implementation's outcome) of a case up to and including step `step`, and the dump after it"""
+    ops, n, dump, on = [], 0, [], False
+    for l in case_lines:
+        if l.startswith("op ") or l.startswith("at "):
+            n += 1
+            if n > step:
+                break
+            ops.append(l)
+            dump = []
+        elif l.startswith("r ") and ops:
+            ops[-1] += "   -> " + l[2:]
+        elif n == step:
+            dump.append(l)
+    return ops, dump
 
 
 def last_case(keep):
@@ -79,8 +130,7 @@ def main():
     total, streams, all_diffs, all_fails, crashed = {}, [], [], [], []
 
     def run(tag, args, h=harness):
-        s = vlib.Stream(chk, h, driver, args, tag)
-        s.harness = h
+        s = TStream(chk, h, driver, args, tag, TIMEOUT[a.tier])
         streams.append((tag, s))
         vlib.merge_hist(total, s.summary)
         all_diffs.extend((tag, d) for d in s.diffs)
@@ -137,9 +187,12 @@ def main():
             continue
         reported.add(sig)
         case_lines = vlib.extract_case(s.keep, cid) if cid is not None else []
+        m = re.search(r"step=(\d+)", f)
+        ops, dump = ops_prefix(case_lines, int(m.group(1))) if m else ([], [])
         chk.violation("propfail-" + re.sub(r"\W+", "_", sig)[:40],
                       {"what": "the implementation's circuit graph violates the well-formedness invariant on this concrete case",
-                       "message": f[:4000], "harness_args": s.args, "case": cid, "case_lines_head": case_lines[:60],
+                       "message": f[:4000], "harness_args": s.args, "case": cid,
+                       "history_up_to_failure": ops[-400:], "implementation_graph_after_it": dump[:700],
                        "replay_cmd": "%s %s %s | %s" % (s.harness, " ".join(s.args), cid, driver)}, True, signature=sig)
     for tag, s in crashed:
         if s.hrc != 0:
